@@ -27,8 +27,7 @@
      obj_good fs ob      the empty file exists with size 0 / the hard link exists and shares the inode of its target /
                          (symlink, dir) the status handed to the model is OK
    Not covered: holes and partially synced arrays (every stripe is assumed synced); -d/-f filters, -a, import (plain options);
-   the time-stamp of the repaired files (file_post restores it, the model has it, the computed example shows it, but it is not
-   in the theorem); symlinks and dirs are status-in / tag-out in the model, so "restored" is not expressible for them. *)
+   symlinks and dirs are status-in / tag-out in the model, so "restored" is not expressible for them. *)
 From Coq Require Import NArith ZArith List Bool Arith Lia.
 From Snap.Array Require Import ArrayDefs.
 From Snap.Array Require Import SyncProofsDefs.
@@ -68,6 +67,25 @@ Theorem C01_fix_run_objects :
 Proof. exact run_fix_objects. Qed.
 Print Assumptions C01_fix_run_objects.
 
+
+(* 2b. the time-stamps: after the run every file with blocks is either exactly the file it was before the run (no block of it was
+       damaged, fix never wrote it) or carries its recorded time-stamp (file_post, at the last block of a file flagged FIXED).
+       uniq_stamp c j f (Fix/StripeProofs.v): no other file of disk j has the size and the time-stamp of f -- in that case
+       check.c does not set the time and reports `collision:` *)
+Theorem C01_fix_run_stamps :
+  forall (hashf : bid -> N -> hval) (padz : bid -> N -> bool) (truncf : bid -> N -> bid) (bs : N) (nlev : nat) (reduced : bool)
+         (newino : nat -> N -> N) (now : Z) (o : copts) (c : content) (bm : nat) (fs : list (option fsdisk)) (par : parity)
+         (vs : nat -> list bid) (objs : list obj),
+    plain nlev o -> co_fix o = true -> synced_array hashf padz bs c bm vs ->
+    length fs = length (c_disks c) -> nlev <= length par -> no_larger c fs ->
+    recoverable hashf padz bs nlev (co_nosearch o) c bm fs par vs -> objs_ok c objs ->
+    let out := check_run hashf padz truncf bs nlev reduced newino now o c par fs objs (seq 0 bm) in
+    forall p j f i b, slot_of c p j = SFile f i b -> uniq_stamp c j f ->
+      exists g, fs_find (r_fs (out_st out)) j (cf_name f) = Some g
+                /\ ((ff_mtime g = cf_mtime f /\ ff_nsec g = cf_nsec f) \/ fs_find fs j (cf_name f) = Some g).
+Proof. exact run_fix_stamps. Qed.
+Print Assumptions C01_fix_run_stamps.
+
 (* 3. a check of the whole array after the fix (a new run: fresh flags and counters; objs' = what the second run finds for the
       empty files / links / dirs) emits no tag at all, counts no error, changes nothing, exit status 0 *)
 Theorem C01_fix_run_then_check_quiet :
@@ -105,6 +123,14 @@ Example C01_example_fix_run_computed :
   /\ r_par (out_st out) = rx_par_ok /\ out_fail out = false /\ r_unrec (out_st out) = 0 /\ r_rec (out_st out) = 3.
 Proof. exact rx_fix_run_computed. Qed.
 Print Assumptions C01_example_fix_run_computed.
+
+Example C01_example_fix_run_stamps :
+  let out := check_run x_hashf x_padz x_truncf x_bs 2 false x_newino 999 rx_fix rx_c rx_par rx_fs [] (seq 0 3) in
+  forall p j f i b, slot_of rx_c p j = SFile f i b ->
+    exists g, fs_find (r_fs (out_st out)) j (cf_name f) = Some g
+              /\ ((ff_mtime g = cf_mtime f /\ ff_nsec g = cf_nsec f) \/ fs_find rx_fs j (cf_name f) = Some g).
+Proof. exact rx_fix_run_stamps. Qed.
+Print Assumptions C01_example_fix_run_stamps.
 
 Example C01_example_fix_run_then_check_quiet :
   let out := check_run x_hashf x_padz x_truncf x_bs 2 false x_newino 999 rx_fix rx_c rx_par rx_fs [] (seq 0 3) in
